@@ -57,6 +57,8 @@ def one(ctx, case):
         if out is not None:
             ctx.violation('%s:%s:misfit-accepted' % (PROP, case['kind']), '%r does not fit but emits %s' % (case['line'][:60], out.hex()),
                           'one', case, expected='refused', observed=out)
+    elif out is None and case.get('may_refuse'):
+        ctx.count('refused_spellings')      # an undocumented spelling of the keyword may be refused, but not turned into other bytes
     elif out is None:
         ctx.violation('%s:%s:refused' % (PROP, case['kind']), '%r is refused: %s' % (case['line'][:60], err), 'one', case, expected=want, observed=err)
     elif out != want:
@@ -210,6 +212,11 @@ def string_cases(tier):
             continue         # blank-only strings are outside the documented grammar (the line would be empty)
         indent = ('', '  ', '\t')[i % 3]
         cases.append(dict(kind='string', line=indent + 'string ' + t, expect=D.string_bytes(t)))
+    # the keyword written in another case / followed by a tab: not a documented spelling, so refusing it is fine, but a line that IS accepted as a string must emit its text
+    for t in ['hello', 'a b', 'a, b', 'a#b', 'x\\ny', '(q)', 'it\'s', 'caf\u00e9', 'a\tb', 'two  spaces ']:
+        for kw in ('string\t', 'STRING ', 'String ', 'STRING\t', 'string \t'):
+            text = '\t' + t if kw == 'string \t' else t
+            cases.append(dict(kind='string-keyword', line=kw + t, expect=D.string_bytes(text), may_refuse=True))
     return cases
 
 
